@@ -454,10 +454,16 @@ pub fn take_trace() -> Trace {
 /// Run grevm on `case` under `run` (inside or outside a controlled execution) and observe the
 /// public result.
 pub fn run_grevm(case: &Case, run: &RunCfg) -> (Observation, Trace) {
+    let (obs, trace, _) = run_grevm_stats(case, run);
+    (obs, trace)
+}
+
+/// Also reports (database calls made, whether the injected database panic fired).
+pub fn run_grevm_stats(case: &Case, run: &RunCfg) -> (Observation, Trace, (usize, bool)) {
     let db = Arc::new(ExecDb::new(case.db.clone(), run.fault.clone(), run.slow_db, false));
     install_observer(run.collect_commits);
-    let obs = run_grevm_on(case, run, db);
-    (obs, take_trace())
+    let obs = run_grevm_on(case, run, db.clone());
+    (obs, take_trace(), (db.calls(), db.panicked()))
 }
 
 pub fn run_grevm_on(case: &Case, run: &RunCfg, db: Arc<ExecDb>) -> Observation {
